@@ -77,6 +77,21 @@ def build(ch):
         st.surfs.append('%s25 px 3' % f20)
         st.cells[1] = '2 0 -50 (-10:25:-30:40) 55 imp:n=1'
         st.twin = True
+    st.flag_on = 20
+    if copy == 'both':
+        # three cards for the plane x = 3 (numbers 15, 20, 25): any card order, the flag on any one of them; the
+        # flagged one is used by a converted cell
+        import itertools
+        order = ch.choose('triple-order', list(itertools.permutations((15, 20, 25))))
+        st.flag_on = ch.choose('flag-on', [20, 15, 25])
+        st.surfs = [c for c in st.surfs if c.lstrip('*+').split()[0] not in ('15', '20', '25')]
+        cards = {n: '%s%d px 3' % (f20 if n == st.flag_on else '', n) for n in (15, 20, 25)}
+        if tr20:
+            cards[20] = '%s20 9 px 1' % (f20 if st.flag_on == 20 else '')
+        st.surfs[1:1] = [cards[n] for n in order]
+        if st.flag_on != 20:
+            st.cells[1] = '2 0 -50 (-10:%d:-30:40) 55 imp:n=1' % st.flag_on
+            copy_used = False
     if copy_used and copy == 'flagged-twin':
         pass
     elif copy_used and copy == 'macro-lower':
